@@ -56,8 +56,16 @@ func sinkKind(info *types.Info, call *ast.CallExpr) string {
 	switch {
 	case rp == "crypto/sha3", rp == "hash", strings.HasPrefix(rp, "golang.org/x/crypto/"), rp == "crypto/hmac", rp == "crypto/sha256", rp == "crypto/sha512":
 		return "H." + f.Name()
-	case rp == "io" && (n.Obj().Name() == "Writer"):
-		// only when the static receiver is known to be a hash: decided by the caller via type of X
+	case rp == "io" && (n.Obj().Name() == "Writer" || n.Obj().Name() == "Reader"):
+		// hash.Hash / sha3.ShakeHash embed io.Writer / io.Reader: decide by the static type of the receiver expression
+		if sel, ok := ast.Unparen(call.Fun).(*ast.SelectorExpr); ok {
+			if xt, ok := types.Unalias(info.TypeOf(sel.X)).(*types.Named); ok && xt.Obj().Pkg() != nil {
+				xp := xt.Obj().Pkg().Path()
+				if xp == "hash" || xp == "crypto/sha3" || strings.HasPrefix(xp, "golang.org/x/crypto/") {
+					return "H." + f.Name()
+				}
+			}
+		}
 		return ""
 	}
 	return ""
@@ -111,6 +119,9 @@ func (u *Unit) SinkOps() []SinkOp {
 		t := k + "(" + recv + strings.Join(args, ", ") + ")"
 		if lc := u.loopContext(call); len(lc) > 0 {
 			t += " @" + strings.Join(lc, " / ")
+		}
+		if cc := u.condContext(call); cc != "" {
+			t += " ?" + cc
 		}
 		out = append(out, SinkOp{Pos: call, Text: t})
 		return true
